@@ -73,6 +73,8 @@ Inductive fexpr :=
 | FQuadPert (f : fexpr) (a : T) (u : list T) (c : T)   (* FunctionalQuadraticPerturb *)
 | FInfConv (f g : fexpr)            (* InfimalConvolution *)
 | FDefConj (f : fexpr)              (* FunctionalDefaultConvexConjugate *)
+| FBreg (q : fexpr)                 (* BregmanDistance: wraps its private QuadraticPerturb q (see [bregman]);
+                                       delegates _call/convex_conj/proximal/gradient, but is flagged nonlinear *)
 | FSep2 (k : nat) (f g : fexpr).    (* SeparableSum(f, g): f on the first k entries, g on the rest;
                                        SeparableSum(f1, f2, f3) = FSep2 k1 f1 (FSep2 k2 f2 f3) *)
 
@@ -87,7 +89,7 @@ Fixpoint is_linear (e : fexpr) : bool :=
   | FRightVec _ _ => false
   | FSum f g => is_linear f && is_linear g
   | FScalarSum f c => is_linear f && (c =? nzero)
-  | FTransl _ _ | FInfConv _ _ => false
+  | FTransl _ _ | FInfConv _ _ | FBreg _ => false
   | FQuadPert f a _ _ => is_linear f && (a =? nzero)
   | FDefConj f => is_linear f
   | FSep2 _ f g => is_linear f && is_linear g
@@ -149,6 +151,7 @@ Fixpoint value (e : fexpr) (w x : list T) : res ext :=
       Ok (eadd (eadd (eadd v (EFin (a * wdot w x x))) (EFin (wdot w x u))) (EFin c))
   | FInfConv _ _ => Err ENotImpl
   | FDefConj _ => Err ENotImpl
+  | FBreg q => value q w x
   | FSep2 k f g =>
       radd (value f (firstn k w) (firstn k x)) (value g (skipn k w) (skipn k x))
   end.
@@ -200,6 +203,7 @@ Fixpoint conj (w : list T) (e : fexpr) : res fexpr :=
       else Ok (FDefConj e)
   | FInfConv f g => f' <- conj w f ;; g' <- conj w g ;; Ok (FSum f' g')
   | FDefConj f => Ok f
+  | FBreg q => conj w q
   | FSep2 k f g => f' <- conj (firstn k w) f ;; g' <- conj (skipn k w) g ;; Ok (FSep2 k f' g')
   end.
 
@@ -207,7 +211,7 @@ Fixpoint conj (w : list T) (e : fexpr) : res fexpr :=
 Definition bregman (f : fexpr) (w p g : list T) : res fexpr :=
   v <- value f w p ;;
   match v with
-  | EFin fp => Ok (FQuadPert f nzero (vopp g) (- fp + wdot w g p))
+  | EFin fp => Ok (FBreg (FQuadPert f nzero (vopp g) (- fp + wdot w g p)))
   | _ => Err EOther
   end.
 
@@ -283,6 +287,7 @@ Fixpoint prox (e : fexpr) (w : list T) (sigma : T) (x : list T) : res (list T) :
         q <- arg_scaling (prox f w) c sigma (vsub (vscal c x) (vscal (sigma * c) u)) ;;
         Ok (vscal c q)
   | FDefConj f => moreau_conj (prox f w) sigma x
+  | FBreg q => prox q w sigma x
   | FSep2 k f g =>
       p <- prox f (firstn k w) sigma (firstn k x) ;;
       q <- prox g (skipn k w) sigma (skipn k x) ;; Ok (p ++ q)
@@ -314,6 +319,7 @@ Fixpoint grad (e : fexpr) (w x : list T) : res (list T) :=
   | FTransl f t => grad f w (vsub x t)
   | FQuadPert f a u _ =>
       p <- grad f w x ;; Ok (vadd (vadd p (vscal (of_Z 2 * a) x)) u)
+  | FBreg q => grad q w x
   | FSep2 k f g =>
       p <- grad f (firstn k w) (firstn k x) ;;
       q <- grad g (skipn k w) (skipn k x) ;; Ok (p ++ q)
